@@ -77,6 +77,12 @@ def run(res, tier, seed, shard, nshards):
                     ti += 1
                     if ti % nshards == shard:
                         close_timing_case(res, W, sock_to, close_to, peer)
+                        # the same when close() is not the first thing that ended the conversation: the client has sent its close
+                        # frame with send_close() already, has answered the server's close frame in a receive call, or a receive
+                        # call has just rejected a frame (an unknown opcode with an empty payload, a non-final ping)
+                        prior = ["send_close", "server-close-answered", "rejected-empty-frame", "rejected-ping-frame"][ti % 4]
+                        if close_to or ti % 3 == 0:
+                            close_timing_case(res, W, sock_to, close_to, peer, prior=prior)
         # the transport fails in the middle of the client's own close frame (a few bytes accepted, then a timeout / reset / I/O
         # error): whatever is called next, close() does not start a second close frame, and it releases the transport
         wi = 0
@@ -462,7 +468,7 @@ def encoding_case(res, W, rng, api, status, rl):
             res.violation("close-encoding", f"{api}({status}, {rl} bytes): frames {[(f.opcode, f.payload[:8]) for f in frames]} exc={exc!r}", case, step_call=api)
 
 
-def close_timing_case(res, W, sock_to, close_to, peer):
+def close_timing_case(res, W, sock_to, close_to, peer, prior="none"):
     """R6.  The peer never answers the close (or answers late / streams other
     frames for ever / ends the stream); close(timeout=close_to) must return by
     close_to (+ one gap of the stream, since the deadline is checked between
@@ -475,6 +481,20 @@ def close_timing_case(res, W, sock_to, close_to, peer):
     w.connect("ws://sim.test/", socket=so)
     S = sched.CURRENT
     gap = 0.0
+    if prior != "none":
+        res.count("close_durations_checked_after:" + prior)
+        try:
+            if prior == "send_close":
+                w.send_close()
+            elif prior == "server-close-answered":
+                conn.deliver(R.encode(R.CLOSE, b"\x03\xe9bye"))
+                w.recv()
+            else:
+                conn.deliver(b"\x83\x00" if prior == "rejected-empty-frame" else b"\x09\x00")
+                w.recv()
+        except BaseException as e:  # noqa
+            if isinstance(e, (KeyboardInterrupt, sched.SimAbort)):
+                raise
     if peer.startswith("stream"):
         gap = {"stream-0.05": 0.05, "stream-0.4": 0.4, "stream-pings": 0.1}[peer]
         frame = R.encode(R.PING, b"k") if peer == "stream-pings" else R.encode(R.TEXT, b"still here")
@@ -501,9 +521,11 @@ def close_timing_case(res, W, sock_to, close_to, peer):
             raise
         exc = e
     dt = S.now - t0
-    res.case(("close-timing", sock_to, close_to, peer), nontrivial=True)
+    res.case(("close-timing", sock_to, close_to, peer, prior), nontrivial=True)
     res.count("close_durations_checked")
-    case = {"gen": "close-timing", "socket_timeout": sock_to, "close_timeout": close_to, "peer": peer}
+    case = {"gen": "close-timing", "socket_timeout": sock_to, "close_timeout": close_to, "peer": peer, "before_close": prior}
+    if prior != "none":
+        peer = f"{peer} (after {prior})"
     limit = close_to + gap + 1e-6
     if exc is not None:
         res.violation("close-raised", f"close(timeout={close_to}) sock_timeout={sock_to} peer={peer}: {type(exc).__name__}: {exc}", case, step_call="close", got=type(exc).__name__)
@@ -512,6 +534,21 @@ def close_timing_case(res, W, sock_to, close_to, peer):
                       case, step_call="close", peer=peer, socket_timeout=repr(sock_to))
     if not conn.client_closed:
         res.violation("transport-not-released", f"close(timeout={close_to}) sock_timeout={sock_to} peer={peer}: transport still open", case, step_call="close", via="close", prior="timing")
+    if prior != "none" and exc is None:
+        # closed is closed: every later call raises the connection-closed exception, without touching a transport
+        n_ev = len(so.events) if hasattr(so, "events") else None
+        for name, fn in (("recv", w.recv), ("recv_data", w.recv_data), ("recv_frame", w.recv_frame), ("send", lambda: w.send("x")), ("ping", w.ping)):
+            try:
+                fn()
+                got = "returned"
+            except BaseException as e:  # noqa
+                if isinstance(e, (KeyboardInterrupt, sched.SimAbort)):
+                    raise
+                got = type(e).__name__
+            res.count("calls_after_close_checked")
+            if got != "WebSocketConnectionClosedException":
+                res.violation("after-close", f"{name}() after close() (before it: {prior}; peer {peer}): {got}, expected WebSocketConnectionClosedException", case,
+                              step_call=name, got=got, prior=prior)
 
 
 def two_objects_case(res, W, rng, peer2, sock_to1, close_to, reader_api):
